@@ -15,7 +15,7 @@ sys.path.insert(0, os.path.dirname(os.path.abspath(__file__)))
 import common, refcheck
 from check_C07 import random_regex
 
-THEOREMS = ["Nmfu.C01_machine_refines_reference", "Nmfu.C16_wait_never_raises"]
+THEOREMS = ["Nmfu.C01_machine_refines_reference", "Nmfu.C16_wait_never_raises", "Nmfu.C16_wait_consumes"]
 
 if __name__ == "__main__":
     t = common.tier()
